@@ -11,11 +11,11 @@ values) and result equal RotoSem.Eval.
 import semlib
 
 PID = "C08"
-ALL = ["ints", "bool", "float", "str", "char", "rec", "enum", "opt", "list", "loops", "calls", "recfn", "ret", "fstr", "copymut", "generic", "filtermap", "hostopt", "shadow", "gconst", "kconst", "mods", "tr"]
+ALL = ["ints", "bool", "float", "str", "char", "rec", "enum", "opt", "list", "loops", "calls", "recfn", "ret", "fstr", "copymut", "generic", "filtermap", "hostopt", "shadow", "gconst", "kconst", "mods", "tr", "exprstmt"]
 
 
 def run(tier):
-    fam = [("effects", ALL, 3, 600, 5000, 2), ("deep", ["ints", "bool", "str", "enum", "opt", "rec", "list", "loops", "calls", "ret", "fstr"], 4, 200, 2000, 2)]
+    fam = [("effects", ALL, 3, 600, 5000, 2), ("deep", ["ints", "bool", "str", "enum", "opt", "rec", "list", "loops", "calls", "ret", "fstr", "exprstmt"], 4, 200, 2000, 2)]
     return semlib.run_sem_check(
         PID, tier, fam,
         extra_cases=[("match", semlib.match_cases())],
